@@ -101,7 +101,7 @@ var assumeB = []string{
 	"a clean batch is evidence over the sampled plans, not a proof",
 }
 
-const ruleB = "runs are plans generated from mix64(VERIF_SEED, property, run index): 1-5 real clients, 1-2 datatypes of mixed kinds, entry by create / subscribe / subscribe-or-create incl. late subscribers, 15-40 (quick) / 30-120 (thorough) events (local calls, transactions, Sync, simultaneous Syncs, time jumps from 1 ms to a day, plus the property's fault events), then heal + drain. A run counts as non-trivial when %s; distinct = distinct trace hash (sequence of events and of every scheduling/fault decision)."
+const ruleB = "runs are plans generated from mix64(VERIF_SEED, property, run index): 1-5 real clients, 1-2 datatypes of mixed kinds, entry by create / subscribe / subscribe-or-create incl. late subscribers, 15-40 (quick) / 30-120 (thorough) events (local calls, transactions, Sync, simultaneous Syncs, time jumps from 1 ms to a day, plus the property's fault events), then heal + drain. Drawn per plan from a stream of its own: the order of the packs in requests and answers, which of the three optional handlers each datatype registers, the key names (k1.. / document-<n> / arbitrary), in half of the C05/C06/C12/C16 plans a read-only observer that pulls at the same moment as Sync calls. A run counts as non-trivial when %s; distinct = distinct trace hash (sequence of events and of every scheduling/fault decision)."
 
 func init() {
 	props["C20"] = propC20
@@ -184,31 +184,31 @@ var propC18C = &propInfo{Engine: "C", Level: "exploration", Instr: true, PerRunS
 
 var propsB = map[string]*propInfo{
 	"C05": {Rule: sprintf(ruleB, "at least two clients pushed and at least one exchange both pushed and pulled"),
-		Oracles: []string{"C05.clients-identical", "C05.equals-log-replay", "C05.equals-server-rebuild (real snapshot.Manager.GetLatestDatatype)", "C05.remote-once-in-log-order", "C05.checkpoint-monotone", "C05.drain-terminates (<= 8 rounds)", "C06 log invariants after every event", "C05.every-call-returns", "C05.client-crash"}},
+		Oracles: []string{"C05.clients-identical", "C05.equals-log-replay", "C05.equals-server-rebuild (real snapshot.Manager.GetLatestDatatype)", "C05.remote-once-in-log-order", "C05.checkpoint-monotone", "C05.drain-terminates (<= 8 rounds)", "C06 log invariants after every event", "C05.every-call-returns", "C05.client-crash", "C06.handed-out-equals-stored (read-only observer)"}},
 	"C06": {Rule: sprintf(ruleB, "at least two clients pushed and at least one exchange both pushed and pulled"),
-		Oracles: []string{"C06.sseq-gapless", "C06.end-matches", "C06.every-pushed-op-once", "C06.client-order", "C06.checkpoint-sound", "C06.one-datatype-per-key"}},
+		Oracles: []string{"C06.sseq-gapless", "C06.end-matches", "C06.every-pushed-op-once", "C06.client-order", "C06.checkpoint-sound", "C06.one-datatype-per-key", "C06.handed-out-equals-stored (what a read-only observer is handed for positions p+1..q is what the log holds there)", "C06.process-crash"}},
 	"C07": {Level: "fault_enumeration", QuickS: 80, ThoroughS: 1200, Enum: true, EnumPairsQuick: 60, EnumPairsThorough: 600,
 		EnumRule: "systematic batch: base scenarios (2-3 clients, 1-2 datatypes, 6-15 events quick / 6-24 thorough, fault-free, at least one transaction, every client syncs at the end) generated from mix64(VERIF_SEED, property/enum, index); for each base scenario EVERY single placement of {response dropped, request duplicated (copy after / racing with the original, two schedules), request lost} on every Sync exchange and of {previous request sent again, last response applied again, an earlier response applied late (two choices), response dropped} on every harness-driven exchange is executed as a run of its own, plus a seeded sample of pairs of placements on different exchanges (60 per scenario quick, 600 thorough); the base scenario itself runs with all oracles as the fault-free twin. Counters: probes enum-base-scenarios, enum-base-scenarios-completed, enum-placements.",
 		Rule:     sprintf(ruleB, "at least one message fault fired (response dropped, request duplicated, request lost, response delivered late) and an exchange both pushed and pulled"),
-		Oracles:  []string{"C07.same-as-fault-free (after heal+drain: clients identical, equal to log replay and server rebuild; every operation stored once, per-client order)", "C07.log-gapless", "C07.client-crash", "C07.every-call-returns"}},
+		Oracles:  []string{"C07.same-as-fault-free (after heal+drain: clients identical, equal to log replay and server rebuild; every operation stored once, per-client order)", "C07.entry-as-if-delivered-once (a create/subscribe sent again gets in as it would have the first time)", "C07.log-gapless", "C07.client-crash", "C07.every-call-returns"}},
 	"C08": {Level: "fault_enumeration", QuickS: 80, ThoroughS: 1200, Enum: true, EnumPairsQuick: 0, EnumPairsThorough: 150,
 		EnumRule: "systematic batch: base scenarios (2-3 clients, 1-2 datatypes of any kind, 6-15 events quick / 6-24 thorough incl. bursts of >100 operations, at least one committed transaction, every client syncs at the end) generated from mix64(VERIF_SEED, property/enum, index) are first executed fault-free while recording every database command issued while serving each Sync exchange (including the background snapshot work after the answer); then for EVERY exchange r, EVERY command k of it and EVERY kind in {command error before applying, applied then connection lost, server crash before the command, server crash right after it, and for insert commands a partial ordered insert} the scenario is re-executed with that single fault, followed by heal, restart and retries by all clients (final drain); thorough adds 150 seeded pairs of placements per scenario. The base scenario itself runs with all oracles as the fault-free twin. Counters: probes enum-base-scenarios, enum-base-scenarios-completed, enum-placements.",
 		Rule:     sprintf(ruleB, "at least one database fault fired (command error before/after applying, partial ordered insert, server crash before/after a command)"),
 		Oracles:  []string{"C08.error-not-hang (every-call-returns)", "C08.client-crash / process-crash", "C08.acked-not-lost", "C08.log-gapless / exactly-once / recoverable", "C08.retry-converges"}},
 	"C11": {Rule: sprintf(ruleB, "at least one stored snapshot document was compared with a replay of its log prefix"),
 		Oracles: []string{"C11.snapshot-equals-prefix", "C11.userdoc-equals-prefix", "C11.version-monotone", "C11.rebuild-paths-agree (server rebuild == full replay)"}},
-	"C12": {Race: true, QuickS: 60, Rule: sprintf(ruleB, "at least two requests were released at the same simulated instant and their database commands interleaved (race-detector build of a scratch copy of the server in which cmd/instr has inserted a scheduling point before every statement that touches a synchronisation object; in 2 of 3 plans these points are seams of the simulator, probe server-scheduling-point; orda's log lines are formatted and written to io.Discard; rogue requests and pairs of overlapping REST patches are mixed into the traffic)"),
-		Oracles: []string{"C12.log invariants (result equals some one-at-a-time order)", "C12.every-call-returns", "C12.process-crash", "C12.no-race (race detector over the explored deterministic schedules)"}},
+	"C12": {Race: true, QuickS: 60, Rule: sprintf(ruleB, "at least two requests were released at the same simulated instant and their database commands interleaved (race-detector build of a scratch copy of the server in which cmd/instr has inserted a scheduling point before every statement that touches a synchronisation object; in 2 of 3 plans these points are seams of the simulator, probe server-scheduling-point; orda's log lines are formatted and written to io.Discard; 2-4 / 2-8 clients; pairs of overlapping REST patches, registrations (ProcessClient) at the same moment as syncs, a read-only observer, late joiners 50 ms after a lock lease ran out while the database is slow, and seeded pack order are mixed into the traffic)"),
+		Oracles: []string{"C12.log invariants (result equals some one-at-a-time order)", "C12.isolation (blocked-by-other-key; lock-timeout-behind-idle-holder: a lease runs out only behind a holder that waits for the database)", "C12.observer-sees-the-log", "C12.every-call-returns", "C12.one-client-per-id", "C12.process-crash", "C12.no-race (race detector over the explored deterministic schedules)"}},
 	"C13": {Rule: sprintf(ruleB, "a datatype was entered by subscribe or subscribe-or-create, or an entry was refused"),
-		Oracles: []string{"C13.refused-cleanly", "C13.one-datatype-per-key", "C13.first-state", "C13.subscribed-once"}},
+		Oracles: []string{"C13.refused-cleanly", "C13.one-datatype-per-key", "C13.first-state", "C13.subscribed-once", "C13.process-crash (e.g. a handler that was not registered is called)"}},
 	"C14": {Rule: sprintf(ruleB, "at least two clients pushed and at least one exchange both pushed and pulled (value-shape swarm)"),
-		Oracles: []string{"C14.store (operation read back from the store with the real BSON codec equals what the client sent)", "C14.peer (operation pulled by a peer equals what its issuer sent)", "C14.echo", "C14.no-panic"}},
+		Oracles: []string{"C14.store (operation read back from the store with the real BSON codec equals what the client sent)", "C14.peer (operation pulled by a peer equals what its issuer sent)", "C14.echo", "C14.same-effect / local-value-native (Go-native values incl. 64-bit integers beyond 2^53, pointers, structs, nil slices)", "C14.no-panic"}},
 	"C16": {Rule: sprintf(ruleB, "at least one mutated request was sent by the rogue actor"),
-		Oracles: []string{"C16.answered", "C16.server-alive", "C16.refused-changes-nothing", "C16.client-survives"}},
+		Oracles: []string{"C16.answered", "C16.server-alive", "C16.refused-changes-nothing (incl. what a read-only observer is handed)", "C16.log-stays-sound", "C16.error-reported / error-not-applied", "C16.client-survives"}},
 	"C17": {Rule: sprintf(ruleB, "a request crossed collections or a collection was reset"),
-		Oracles: []string{"C17.foreign-refused", "C17.same-key-independent", "C17.distinct-numbers", "C17.reset-exact"}},
+		Oracles: []string{"C17.foreign-refused", "C17.same-key-independent", "C17.distinct-numbers", "C17.reset-exact", "C17.collection-number-stable / one-collection-per-name (two simultaneous CreateCollection calls with a client joining in between)"}},
 	"C19": {Rule: sprintf(ruleB, "at least one REST PatchDocument was sent (absent key, existing document with and without stored snapshot, interleaved with client pushes)"),
 		Oracles: []string{"C19.rest-response-equals-target", "C19.rest-ops-appended (replay of the stored log equals the target; C06 log invariants)", "C19.subscribers-converge", "C19.rest-refuses-non-document"}},
 	"C18": {QuickS: 80, Also: propC18C, Rule: sprintf(ruleB, "at least one committing push was matched against the broker's publishes"),
-		Oracles: []string{"C18.one-publish-per-commit", "C18.no-publish-without-commit", "C18.realtime-converges", "C18.own-notification-ignored"}},
+		Oracles: []string{"C18.one-publish-per-commit", "C18.no-publish-without-commit", "C18.realtime-converges (also with answers to realtime clients arriving late: holdresp)", "C18.own-notification-ignored"}},
 }
